@@ -228,6 +228,17 @@ def unhex_arr(v, cplx):
 
 
 # ----------------------------------------------------------------------------- clause evaluation on the implementation
+def as_intype(x, intype):
+    """the same sample values in another container / dtype the API accepts (values must be integers for the int forms)"""
+    if intype == 'int':
+        return np.real(x).astype(np.int64) if not np.iscomplexobj(x) or not np.any(np.imag(x)) else x
+    if intype == 'list':
+        return [complex(t) if np.iscomplexobj(x) else float(t) for t in np.ravel(x)] if np.ndim(x) == 1 else x
+    if intype == 'intlist':
+        return [int(t) for t in np.real(np.ravel(x))] if (np.ndim(x) == 1 and not np.any(np.imag(x))) else x
+    return x
+
+
 def eval_speriodogram(r):
     """definition at every bin, length, finiteness, Parseval (complex), 2-D column-wise; r is a replay dict"""
     from spectrum import speriodogram
@@ -238,7 +249,7 @@ def eval_speriodogram(r):
     if r.get('shape'):
         rr, c = r['shape']; X = x.reshape(rr, c)
         w = win(rr, name)
-        P = np.asarray(speriodogram(X, NFFT=NFFT, detrend=False, scale_by_freq=False, window=name))
+        P = np.asarray(speriodogram(as_intype(X, r.get('intype')) if r.get('intype') == 'int' else X, NFFT=NFFT, detrend=False, scale_by_freq=False, window=name))
         nb = NFFT if cplx else NFFT // 2 + 1
         if P.shape != (nb, c):
             bad.append(('length/speriodogram/2d/' + tag, 'shape %r, expected (%d, %d)' % (P.shape, nb, c)))
@@ -257,7 +268,7 @@ def eval_speriodogram(r):
                 break
         return bad
     N = len(x); w = win(N, name)
-    P = np.asarray(speriodogram(x, NFFT=NFFT, detrend=False, scale_by_freq=False, window=name))
+    P = np.asarray(speriodogram(as_intype(x, r.get('intype')), NFFT=NFFT, detrend=False, scale_by_freq=False, window=name))
     if NFFT is None:
         NFFT = N          # the documented default: the data length
     nb = NFFT if cplx else NFFT // 2 + 1
@@ -281,10 +292,15 @@ def eval_speriodogram(r):
     return bad
 
 
-def run_class_ops(x, name, nfft_arg, ops, sbf=False, detrend=None, sampling=1.0):
+def run_class_ops(x, name, nfft_arg, ops, sbf=False, detrend=None, sampling=1.0, intype=None, mutate=False):
     """drive a Periodogram object; returns (psd, NFFT, range.N, final window name)"""
     from spectrum import Periodogram
-    p = Periodogram(x, sampling=sampling, window=name, NFFT=nfft_arg, scale_by_freq=sbf, detrend=detrend)
+    given = as_intype(x, intype)
+    if mutate and isinstance(given, np.ndarray):
+        given = given.copy()
+    p = Periodogram(given, sampling=sampling, window=name, NFFT=nfft_arg, scale_by_freq=sbf, detrend=detrend)
+    if mutate and isinstance(given, np.ndarray):
+        given[...] = given * 3 + 1          # the caller re-uses its buffer: the object must keep the samples it was given
     cur = name
     for o in ops:
         if o == 'call':
@@ -302,7 +318,7 @@ def eval_class(r):
     cplx = r['complex']; x = unhex_arr(r['x'], cplx); name = r['window']; tag = 'complex' if cplx else 'real'
     N = len(x); arg = r['NFFT']
     n0 = N if arg is None else (1 << int(math.ceil(math.log2(N))) if arg == 'nextpow2' else arg)
-    psd, nfft, rn, cur = run_class_ops(x, name, arg, r['ops'], detrend=r.get('detrend'))
+    psd, nfft, rn, cur = run_class_ops(x, name, arg, r['ops'], detrend=r.get('detrend'), intype=r.get('intype'), mutate=r.get('mutate', False))
     w = win(N, cur)
     ref = oracle_per(x, w, n0, cplx)
     hist = 'first_evaluation' if len([o for o in r['ops'] if o in ('call', 'read')]) == 0 else 're_evaluated'
@@ -311,6 +327,8 @@ def eval_class(r):
         bad.append(('class/Periodogram/%s/NFFT_%s/%s/nfft_attribute' % (tag, par, hist), 'NFFT attribute %r / range.N %r after %r, constructed with NFFT=%r (N=%d): expected %d'
                     % (nfft, rn, r['ops'], arg, N, n0)))
     if psd.shape != ref.shape or far(psd, ref, tol_abs(ref, bin_bound(x, w))):
+        if r.get('mutate'):
+            hist += '/caller_buffer_reused'
         bad.append(('class/Periodogram/%s/NFFT_%s/%s' % (tag, par, hist), 'stored PSD after %r differs from |DFT_%d(x*w)|^2/N (window %s, N=%d): shapes %r vs %r'
                     % (r['ops'], n0, cur, N, psd.shape, ref.shape)))
     return bad
@@ -684,7 +702,13 @@ def search(ctx):
                 kind = KINDS[int(rng.integers(0, 4))]
                 nfft = pick_nfft(rng, N, big, cats[int(rng.integers(0, 4))]) if rng.integers(0, 8) else None
                 x = gen_data(rng, N, cplx, kind)
+                if cplx and rng.integers(0, 6) == 0:
+                    x = np.real(x).astype(complex)          # real samples stored in a complex array: still complex data (all NFFT bins)
+                    if not np.any(x):
+                        x[0] = 1
                 r = {'function': 'speriodogram', 'x': hexx(x), 'window': name, 'NFFT': nfft, 'complex': cplx}
+                if kind == 'int' and not cplx:
+                    r['intype'] = ['int', 'intlist', 'list', None][int(rng.integers(0, 4))]
                 ctx.count('search/speriodogram/%s/%s' % ('complex' if cplx else 'real', kind))
                 for cat in (nfft_category(nfft) if nfft else ['default_None']):
                     ctx.count('search/NFFT_' + cat)
@@ -701,7 +725,7 @@ def search(ctx):
         X = gen_data(rng, r_ * c, cplx, kind).reshape(r_, c)
         nfft = pick_nfft(rng, r_, big, cats[int(rng.integers(0, 4))])
         ctx.count('search/speriodogram2d/%s/cols=%d' % ('complex' if cplx else 'real', c))
-        report({'function': 'speriodogram', 'x': hexx(X), 'shape': [r_, c], 'window': name, 'NFFT': nfft, 'complex': cplx}, ('s2d', X.tobytes(), r_, c, name, nfft))
+        report({'function': 'speriodogram', 'x': hexx(X), 'shape': [r_, c], 'window': name, 'NFFT': nfft, 'complex': cplx, 'intype': 'int' if (kind == 'int' and not cplx and it % 2) else None}, ('s2d', X.tobytes(), r_, c, name, nfft))
     # class vs definition, PSD evaluated once and several times
     OPS = [[], ['call'], ['call', 'call'], ['read', 'call'], ['read', 'window:hann', 'read'], ['call', 'window:bartlett', 'call', 'window:hamming'],
            ['read', 'read', 'window:blackman']]
@@ -713,7 +737,12 @@ def search(ctx):
         ops = OPS[int(rng.integers(0, len(OPS)))]
         dt = [None, 'mean'][int(rng.integers(0, 2))]
         ctx.count('search/Periodogram/%s/%s/evals=%d' % ('complex' if cplx else 'real', 'None' if arg is None else arg if arg == 'nextpow2' else ('odd' if arg % 2 else 'even'), 1 + len([o for o in ops if o in ('call', 'read')])))
-        report({'function': 'Periodogram', 'x': hexx(x), 'window': name, 'NFFT': arg, 'ops': ops, 'detrend': dt, 'complex': cplx}, ('cls', x.tobytes(), name, arg, tuple(ops), dt))
+        if cplx and rng.integers(0, 6) == 0:
+            x = np.real(x).astype(complex)
+            if not np.any(x):
+                x[0] = 1
+        report({'function': 'Periodogram', 'x': hexx(x), 'window': name, 'NFFT': arg, 'ops': ops, 'detrend': dt, 'complex': cplx,
+                'intype': (['int', 'intlist', 'list', None][int(rng.integers(0, 4))] if (kind == 'int' and not cplx) else None), 'mutate': bool(it % 3 == 0)}, ('cls', x.tobytes(), name, arg, tuple(ops), dt))
     # Wiener-Khinchin, both back ends
     for it in range(ctx.q(200, 1500)):
         N = int(rng.integers(1, 34)); cplx = bool(rng.integers(0, 2)); kind = KINDS[int(rng.integers(0, 4))]
